@@ -39,3 +39,88 @@ Proof.
   apply recorded_trace_valid, f32_choice_law.
 Qed.
 Print Assumptions C04_point_trace_simplification_f32.
+
+(* ---- Stage B: the for-all theorems about VmData::simplify itself ------------------- *)
+From Coq Require Import Arith.
+From FV Require Import Alloc SsaWf Simplify AllocProof SimplifyProof SimplifyTotal.
+Import ListNotations.
+
+(* Any successful simplification of a well-formed tape with a trace valid at the inputs:
+   same outputs in the same order (for any stale slots), the child is a well-formed SSA
+   tape, its choice count is its number of choice clauses, the output count is the parent's. *)
+Theorem C04_simplify_ssa_correct :
+  forall (V I : Type) (sem : Sem V I),
+    (forall v, s_un sem UCopy v = v) ->
+  forall (ao : bool) (m : nat) (parent : list (op I)) (trace : list tchoice)
+         (inputs : list V) (e0 e0' : env) (out0 : list V) (z : simplified I),
+    ssa_wf parent = true ->
+    simplify ao m parent (count_choices parent) trace = Ok z ->
+    valid_at sem inputs parent e0 out0 trace ->
+    m_out (eval_tape sem parent inputs e0 out0) = m_out (eval_tape sem (z_ssa z) inputs e0' out0) /\
+    wf_walk (length parent) (z_ssa z) ([], []) = true /\
+    ssa_wf (z_ssa z) = true /\
+    z_choices z = count_choices (z_ssa z) /\
+    z_outputs z = count_outputs parent /\
+    count_outputs parent = count_outputs (z_ssa z).
+Proof. exact simplify_ssa_correct. Qed.
+Print Assumptions C04_simplify_ssa_correct.
+
+(* ... and into ANY register budget that allocates: the child's register tape is
+   observationally equal to the child's SSA tape and in bounds. *)
+Theorem C04_simplify_reg_correct :
+  forall (V I : Type) (sem : Sem V I) (ao : bool) (m : nat) (parent : list (op I))
+         (trace : list tchoice) (z : simplified I),
+    ssa_wf parent = true ->
+    simplify ao m parent (count_choices parent) trace = Ok z ->
+    obs_equal sem (z_ssa z) (z_reg z) /\ tape_bounds m (z_slots z) (z_reg z).
+Proof. exact simplify_reg_correct. Qed.
+Print Assumptions C04_simplify_reg_correct.
+
+(* A trace can ALWAYS be used (budgets 3..255, no Unknown entries, right length): none of
+   simplify's assertions / unwraps fires — with the repaired closing assertion. *)
+Theorem C04_simplify_total :
+  forall (I : Type) (m : nat) (parent : list (op I)) (trace : list tchoice),
+    3 <= m -> m <= 255 ->
+    ssa_wf parent = true ->
+    forallb ir_ok parent = true ->
+    length trace = count_choices parent ->
+    ~ In TUnknown trace ->
+    exists z, simplify true m parent (count_choices parent) trace = Ok z.
+Proof. exact simplify_total. Qed.
+Print Assumptions C04_simplify_total.
+
+(* The assertion as it was before the repair (count + 1 = len) is refuted by a two-output tape. *)
+Theorem C04_old_assertion_refuted :
+  let parent : list (op nat) := [OOutput 0 0; OOutput 0 1; OInput 0 0] in
+  ssa_wf parent = true /\
+  simplify false 4 parent (count_choices parent) [] = Err 40 /\
+  exists z, simplify true 4 parent (count_choices parent) [] = Ok z.
+Proof. exact simplify_old_assert_refuted. Qed.
+Print Assumptions C04_old_assertion_refuted.
+
+(* The recorded trace of any evaluator with an honest choice function simplifies soundly,
+   at SSA and at register level. *)
+Theorem C04_recorded_trace_simplifies :
+  forall (V I : Type) (sem : Sem V I),
+    (forall v, s_un sem UCopy v = v) -> choice_law sem ->
+  forall (ao : bool) (m : nat) (parent : list (op I)) (inputs : list V) (e0 e0' : env)
+         (out0 : list V) (z : simplified I),
+    ssa_wf parent = true ->
+    simplify ao m parent (count_choices parent)
+             (rev (m_trace (eval_tape sem parent inputs e0 out0))) = Ok z ->
+    m_out (eval_tape sem parent inputs e0 out0) = m_out (eval_tape sem (z_ssa z) inputs e0' out0) /\
+    m_out (eval_tape sem parent inputs e0 out0) = m_out (eval_tape sem (z_reg z) inputs e0' out0).
+Proof. exact simplify_recorded_trace. Qed.
+Print Assumptions C04_recorded_trace_simplifies.
+
+(* Chains of simplifications over successive valid traces keep the original outputs. *)
+Theorem C04_simplify_chain :
+  forall (V I : Type) (sem : Sem V I),
+    (forall v, s_un sem UCopy v = v) ->
+  forall (inputs : list V) (out0 : list V) (ao : bool) (m : nat) (t t' : list (op I)),
+    ssa_wf t = true -> simp_chain sem inputs out0 ao m t t' ->
+    ssa_wf t' = true /\
+    forall e0 e0' : env,
+      m_out (eval_tape sem t inputs e0 out0) = m_out (eval_tape sem t' inputs e0' out0).
+Proof. intros V I sem Hc inputs out0 ao m t t'. exact (simplify_chain sem Hc inputs out0 ao m t t'). Qed.
+Print Assumptions C04_simplify_chain.
